@@ -235,6 +235,26 @@ func runSite(line, variantF, itemsF string) core.Outcome {
 				What: fmt.Sprintf("reordering directives of different kinds changed the result: %q vs %q: %s", clip(text, 500), clip(text2, 500), firstDiff(r.json, r2.json))})
 		}
 	}
+	// oracle: handle_path counts as handle — writing `handle` instead of `handle_path` (same
+	// matcher) must put the directive at the same place
+	hasHP := false
+	items3 := make([]sortItem, len(items))
+	for i, it := range items {
+		items3[i] = it
+		if it.dir == "handle_path" {
+			items3[i].dir = "handle"
+			hasHP = true
+		}
+	}
+	if hasHP {
+		o.Tags = append(o.Tags, "site:handle_path")
+		r3 := adaptText(renderSite(variant, items3))
+		ord3, all3 := markerOrder(r3.json, len(items))
+		if r3.verdict() != "json" || !all3 || idxField(ord3) != idxField(ord) {
+			o.Failures = append(o.Failures, core.Failure{Case: line, Class: "handle-path-not-sorted-as-handle",
+				What: fmt.Sprintf("directives come out as %s, but as %s when every handle_path is written handle (same matchers); input %q", idxField(ord), idxField(ord3), clip(text, 600))})
+		}
+	}
 	checkValid(line, text, r.json, false, &o)
 	return o
 }
